@@ -232,6 +232,14 @@ def r5(ctx):
                  and n.value.func.attr in ("match", "fullmatch")]
         ok2 = len(rets) == 1 and len(mvars) == 1 and bool({(mvars[0], True), ("%s is not None" % mvars[0], True), ("%s is None" % mvars[0], False)} & set(conds)) and isinstance(rets[0].value, ast.Tuple) and norm(rets[0].value.elts[0]) == norm(loops[0].target.elts[2])
         ctx.check(ok2, "C16.R5", gr, "the first matching route is returned at once", witness=conds)
+        # every route of the method is tried against the path: the match executes in every iteration (no pre-filter may skip
+        # a route - the pattern alone decides)
+        mcalls = [c for c in ast.walk(loops[0]) if isinstance(c, ast.Call) and isinstance(c.func, ast.Attribute) and c.func.attr in ("match", "fullmatch")]
+        if mcalls:
+            loop_conds = {(id(t), p) for (t, p) in cfg.conditions_of(cfg.node_of(loops[0]).id)}
+            extra = [(norm(t), p) for (t, p) in cfg.conditions_of(cfg.node_of(mcalls[0]).id, loop_exits=False) if (id(t), p) not in loop_conds]
+            ctx.check(not extra, "C16.R5", gr, "every registered route of the method is matched against the path (no pre-filter)",
+                      "a route skipped by a shortcut test never gets to match: a request the documented pattern accepts is answered 404", witness=extra)
         others = [n for n in walk_own(gr.node) if isinstance(n, ast.Return) and n not in rets]
         ctx.check(all(norm(o.value) == "None" for o in others) and len(others) == 2, "C16.R5", gr, "no match / unknown method -> None", witness=[norm(o) for o in others])
         g = [n for n in walk_own(gr.node) if isinstance(n, ast.If) and norm(n.test) == "%s not in self.route_table" % gr.params[1]]
